@@ -3,11 +3,12 @@
 from __future__ import annotations
 
 import ast
+import copy
 import re
 from typing import Callable, Dict, List, Optional, Set, Tuple
 
 from .. import flow
-from ..cfg import cfg_of
+from ..cfg import CFG, cfg_of
 from ..escape import Escape
 from ..flow import ERROR
 from ..model import UNKNOWN, AnchorError, Class, Func, UnknownIdiom, dotted, short
@@ -1296,29 +1297,102 @@ def r5_content_length(run):
 # R6 close exactly once
 # ---------------------------------------------------------------------------
 
-def r6_close(run):
-    p = run.project
-    a = AsgiCall(run)
-    cfg, f, ix = a.cfg, a.f, a.ix
-    st_al = aliases(f, lambda e: attr_of(e, a.resp, ('stream',)))
-    if not st_al:
-        raise AnchorError('%s: %s.stream is not bound to a local' % (f.qual, a.resp))
-    is_s = lambda e: isinstance(e, ast.Name) and e.id in st_al  # noqa: E731
-    loops = []
-    for n in walk_self(f.node):
-        if isinstance(n, ast.AsyncFor) and is_s(n.iter):
-            loops.append(n)
-        elif isinstance(n, ast.For) and is_s(n.iter):
-            loops.append(n)
-        elif isinstance(n, ast.While):
-            pulls = [c for c in walk_self(n) if isinstance(c, ast.Call) and isinstance(c.func, ast.Attribute) and c.func.attr in ('read', '__anext__', 'readline')
-                     and is_s(c.func.value)]
-            if pulls:
-                loops.append(n)
-    if not loops:
-        raise AnchorError('%s: no loop pulling from the response stream' % f.qual)
+# what a handler must name to receive a task cancellation delivered at an
+# `await`: asyncio.CancelledError is a BaseException, not an Exception
+_CANCEL_CATCHERS = frozenset({
+    'builtins.BaseException', 'asyncio.CancelledError', 'asyncio.exceptions.CancelledError',
+    'concurrent.futures.CancelledError', 'concurrent.futures._base.CancelledError',
+})
+
+
+def _catches_cancel(p, f: Func, h: ast.ExceptHandler) -> Optional[bool]:
+    """True / False / None (a class the checker cannot resolve)"""
+    if h.type is None:
+        return True
+    unknown = False
+    for t in (h.type.elts if isinstance(h.type, ast.Tuple) else [h.type]):
+        q = p.resolve_expr(f.module, t, f)
+        if q in _CANCEL_CATCHERS:
+            return True
+        if q is None or not (q.startswith('builtins.') or q in p.classes):
+            unknown = True
+    return None if unknown else False
+
+
+class _CancelView(ast.NodeTransformer):
+    """The function as a task cancellation sees it: a handler that cannot
+    receive CancelledError does not exist (`try/except Exception/else` is its
+    body followed by its else suite), the first handler that can is a bare
+    `except:`, `finally` stays."""
+
+    def __init__(self, p, f: Func, is_loop):
+        self.p, self.f, self.is_loop = p, f, is_loop
+        self.depth = 0
+        self.dropped: List[Tuple[Set[int], str]] = []  # (loops inside the try body, handler that a cancellation passes by)
+
+    def _nested(self, n):
+        return n
+
+    visit_FunctionDef = visit_AsyncFunctionDef = visit_Lambda = visit_ClassDef = _nested
+
+    def _loop(self, n):
+        inc = 1 if self.is_loop(n) else 0
+        self.depth += inc
+        n = self.generic_visit(n)
+        self.depth -= inc
+        return n
+
+    visit_While = visit_For = visit_AsyncFor = _loop
+
+    def visit_Try(self, t):
+        inside = {id(x) for s_ in t.body for x in walk_self(s_) if self.is_loop(x)}
+        relevant = self.depth > 0 or bool(inside)
+        t = self.generic_visit(t)
+        kept = None
+        for h in t.handlers:
+            c = _catches_cancel(self.p, self.f, h)
+            if c is None:
+                if relevant:
+                    raise UnknownIdiom('%s: cannot tell whether `except %s` around the response-stream loop receives a task cancellation'
+                                       % (self.f.qual, short(h.type)))
+                c = False
+            if c:
+                kept = h
+                break
+            if inside:
+                self.dropped.append((inside, 'except %s' % short(h.type)))
+        if kept is not None:
+            kept.type = None
+            t.handlers = [kept]
+            return t
+        if t.finalbody:
+            t.body = list(t.body) + list(t.orelse)
+            t.orelse = []
+            t.handlers = []
+            return t
+        return list(t.body) + list(t.orelse)
+
+    visit_TryStar = visit_Try
+
+
+def _stream_loops(f: Func, fnode, is_s):
+    def is_loop(n):
+        if isinstance(n, (ast.AsyncFor, ast.For)):
+            return is_s(n.iter)
+        if isinstance(n, ast.While):
+            return any(isinstance(c, ast.Call) and isinstance(c.func, ast.Attribute) and c.func.attr in ('read', '__anext__', 'readline')
+                       and is_s(c.func.value) for c in walk_self(n))
+        return False
+    return is_loop, [n for n in walk_self(fnode) if is_loop(n)]
+
+
+def _close_typestate(f: Func, fnode, cfg, ix: Index, is_s, loops, cancel: bool):
+    """[(loop, counterexample | None)]: from each loop header, stream.close()
+    runs exactly once before every exit.  cancel=True: `cfg` is the cancel
+    view and the only exception that starts an exceptional exit is the one
+    delivered at a suspension point (await / async for / async with)."""
     close_nodes = set()
-    for c in walk_self(f.node):
+    for c in walk_self(fnode):
         if isinstance(c, ast.Call) and isinstance(c.func, ast.Attribute) and c.func.attr == 'close' and is_s(c.func.value):
             close_nodes.update(ix.nodes_of(c))
 
@@ -1331,7 +1405,7 @@ def r6_close(run):
 
     def delta(st, lab):
         if lab == 'CLOSE':
-            return 'CLOSED' if st == 'OPEN' else ERROR
+            return 'CLOSED' + st[4:] if st.startswith('OPEN') else ERROR
         return st
 
     def edge_delta(st, x, y, l):
@@ -1340,23 +1414,81 @@ def r6_close(run):
             if l == 'exc' and is_hasattr_close(n.ast):
                 return None  # hasattr() itself does not raise
             v = eval3(n.ast, lambda e: False if is_hasattr_close(e) else None)
-            if v is not None and l in ('T', 'F') and (l == 'T') == v and st == 'OPEN':
-                return 'CLOSED'  # nothing to close
+            if v is not None and l in ('T', 'F') and (l == 'T') == v and st.startswith('OPEN'):
+                return 'CLOSED' + st[4:]  # nothing to close
+        if cancel and l == 'exc' and not st.endswith('!'):
+            if not n.susp:
+                return None  # ordinary errors are the subject of the other pass
+            return st + '!'  # the cancellation is in flight: from here on every edge is followed
         return st
 
+    out = []
     for lp in loops:
         heads = [i for i in cfg.nodes_for(lp) if cfg.node(i).kind in ('iter', 'test') and not cfg.node(i).copy]
         head = single(heads, 'stream loop header', f.qual)
-        cex, _x, _y = flow.typestate(cfg, labels, delta, 'OPEN', start=head, exit_ok=lambda st: st == 'CLOSED',
-                                     xexit_ok=lambda st: st == 'CLOSED', edge_delta=edge_delta)
-        what = 'ASGI: once the stream loop is entered, stream.close() runs exactly once on every exit (completion, stream error, send error)'
-        cons = 'for ... in %s' % short(lp.iter) if isinstance(lp, (ast.For, ast.AsyncFor)) else 'while %s: ... %s.read()' % (short(lp.test), sorted(st_al)[0])
+        closed = lambda st: st.startswith('CLOSED')  # noqa: E731
+        cex, _x, _y = flow.typestate(cfg, labels, delta, 'OPEN', start=head, exit_ok=closed, xexit_ok=closed, edge_delta=edge_delta)
+        out.append((lp, cex))
+    return out
+
+
+def r6_close(run):
+    """ASGI: once a loop pulling from resp.stream is entered, stream.close()
+    runs exactly once on every exit - completion, an error of the stream or of
+    send(), AND the cancellation of the application task at any await inside
+    the loop (asyncio.CancelledError is a BaseException: `finally`,
+    `except BaseException`, a bare `except:` or a handler naming CancelledError
+    receive it, `except Exception` + `else` does not).
+    Runtime witness: the server cancels the app task while it is blocked in
+    send() of a body event of a file-like stream -> close() is called 0 times."""
+    p = run.project
+    a = AsgiCall(run)
+    cfg, f, ix = a.cfg, a.f, a.ix
+    st_al = aliases(f, lambda e: attr_of(e, a.resp, ('stream',)))
+    if not st_al:
+        raise AnchorError('%s: %s.stream is not bound to a local' % (f.qual, a.resp))
+    is_s = lambda e: isinstance(e, ast.Name) and e.id in st_al  # noqa: E731
+    is_loop, loops = _stream_loops(f, f.node, is_s)
+    if not loops:
+        raise AnchorError('%s: no loop pulling from the response stream' % f.qual)
+
+    def cons_of(lp):
+        return 'for ... in %s' % short(lp.iter) if isinstance(lp, (ast.For, ast.AsyncFor)) else 'while %s: ... %s.read()' % (short(lp.test), sorted(st_al)[0])
+
+    what = 'ASGI: once the stream loop is entered, stream.close() runs exactly once on every exit (completion, stream error, send error)'
+    for lp, cex in _close_typestate(f, f.node, cfg, ix, is_s, loops, False):
         if cex is None:
-            run.ok(what, f.loc(lp), cons)
+            run.ok(what, f.loc(lp), cons_of(lp))
         else:
             path, st, reason = cex
-            run.fail(what + ' [%s]' % reason, f, cons, where=f.loc(lp), witness=flow.describe_path(cfg, path),
+            run.fail(what + ' [%s]' % reason, f, cons_of(lp), where=f.loc(lp), witness=flow.describe_path(cfg, path),
                      runtime_witness='the stream raises (or send fails) mid-way: close() is never called / is called twice')
+    # ---- the same, as a task cancellation sees the function
+    view = _CancelView(p, f, is_loop)
+    node2 = copy.deepcopy(f.node)
+    view.generic_visit(node2)
+    ast.fix_missing_locations(node2)
+    f2 = Func(node2, f.qual, f.module, f.cls, f.parent)
+    f2.nested = f.nested
+    cfg2 = CFG(f2, p)
+    _il, loops2 = _stream_loops(f2, node2, is_s)
+    if len(loops2) != len(loops):
+        raise UnknownIdiom('%s: the cancellation view of the function lost a response-stream loop' % f.qual)
+    what = ('ASGI: stream.close() also runs exactly once when the application task is cancelled at an await inside the stream loop '
+            '(the close is reached through finally / except BaseException / bare except, not only through `except Exception` + else)')
+    for lp, cex in _close_typestate(f2, node2, cfg2, Index(cfg2), is_s, loops2, True):
+        if not any(n.susp for n in (cfg2.node(i) for i in nodes_within(cfg2, [lp]))):
+            raise UnknownIdiom('%s: no suspension point inside %s' % (f.qual, cons_of(lp)))
+        if cex is None:
+            run.ok(what, f.loc(lp), cons_of(lp) + ' [cancelled]')
+        else:
+            path, st, reason = cex
+            by = sorted({t for (ids, t) in view.dropped if id(lp) in ids})
+            hint = (' (not receiving a cancellation: %s)' % ', '.join(by)) if by else ''
+            run.fail(what + ' [%s]%s' % (reason.replace('!', ''), hint), f, cons_of(lp) + ' [cancelled]', where=f.loc(lp),
+                     witness=flow.describe_path(cfg2, path),
+                     runtime_witness='file-like resp.stream, the server cancels the app task blocked in send() of a body event '
+                                     '(client disconnect / timeout): asyncio.CancelledError is not an Exception, close() is called 0 times')
     # ---- WSGI wrapper
     c = p.cls('falcon.app_helpers.CloseableStreamIterator')
     init = c.methods.get('__init__')
@@ -1841,7 +1973,7 @@ def check(run):
     run.rule('R3', r3_precedence, 'text > data > media in the three render siblings; stream only when the body is None', floor=18)
     run.rule('R4', r4_bodiless_typeless, 'bodiless/typeless status sets (by value) and branches; default content type', floor=26)
     run.rule('R5', r5_content_length, 'forced Content-Length equals the bytes sent on non-streamed, body-bearing paths; none computed for bodiless non-HEAD', floor=13)
-    run.rule('R6', r6_close, 'response streams are closed exactly once on every exit', floor=7)
+    run.rule('R6', r6_close, 'response streams are closed exactly once on every exit, task cancellation at an await included', floor=9)
     run.rule('R7', r7_sse_and_status, 'SSE event framing; status-line shape', floor=9)
     # media is the last-precedence body source: what is sent for it is the cached rendition, which must belong to
     # the media currently assigned (shared with C12 R4)
